@@ -4,7 +4,8 @@ from vf.gen import pick_weighted
 from props import b16dag as D
 
 ID = "C43"
-THEOREMS = ["C43_spec_reach"]
+THEOREMS = ["C43_walk_perm", "C43_pre_perm", "C43_post_perm", "C43_bfs_perm", "C43_ctime_perm", "C43_first_parent_perm",
+            "C43_limit", "C43_post_topological_refuted", "C43_all_refuted", "C43_all_partial"]
 MODEL_FILES = ["CommitWalk.v", "LogWalk.v"]
 MODELLED = ("plumbing/object/commit_walker.go (commitPreIterator, commitPostIterator, commitPostIteratorFirstParent, "
             "NewCommitAllIter/addReference), commit_walker_bfs.go, commit_walker_ctime.go (incl. the gods binary heap), "
